@@ -16,7 +16,8 @@ AltOrders == { << <<A>>, <<A, B>> >>, << <<A, B>>, <<A>> >>, << <<A>>, <<B>> >>,
 SegChoices == { [k |-> "lit", s |-> s] : s \in Lits } \cup { [k |-> "enum", n |-> n] : n \in Ns }
               \cup { [k |-> "alt", order |-> o] : o \in AltOrders }
 NoTypes == [has |-> FALSE, alts |-> <<>>]
-TypeChoices == { NoTypes } \cup { [has |-> TRUE, alts |-> a] : a \in { << <<>> >>, << <<105>> >>, << <<105>>, <<102>> >>, << <<>>, <<105>> >> } }
+TypeChoices == { NoTypes } \cup { [has |-> TRUE, alts |-> a] : a \in { << <<>> >>, << <<105>> >>, << <<105>>, <<102>> >>, << <<>>, <<105>> >>,
+                                                                                  << <<105, 105, 105, 105, 105>> >>, << <<105>>, <<102, 102, 102, 102, 102, 102, 102, 102, 102>> >> } }    \* alternatives longer than the padding of a short message
 Init == segs = <<>> /\ types = NoTypes /\ done = FALSE
 Grow == /\ ~ done /\ Len(segs) < MaxSegs
         /\ \E g \in SegChoices :
